@@ -1085,6 +1085,8 @@ class C12(Property):
         "Flatland.EndToEnd.Proofs.exArr2_only_narrow_fails",
         "Flatland.EndToEnd.Proofs.exArr2_still_rebuilds",
         "Flatland.EndToEnd.Proofs.exPrunedArr_hyps",
+        "Flatland.EndToEnd.Proofs.fromFlat_formPairs_stable",
+        "Flatland.EndToEnd.Proofs.exArr2_via_stable",
     ]
     extra_proof_modules = ["Proofs.EndToEndExamples"]
     generated_obligations = []
